@@ -207,29 +207,46 @@ def register(gen, T):
         out.append("def lexNextCallers : List (String × String × String) := [" +
                    ", ".join("(" + ", ".join(lean_str(x) for x in c) + ")" for c in sorted(set(callers))) + "]\n\n")
 
-        # ---- ConditionChain (preprocess/src/preprocess.rs)
+        # ---- ConditionChain (preprocess/src/preprocess.rs); since 03ca601 / 115a619 a block records `seen_else`
+        #      and the chain carries the number of blocks that belong to the including files (`self.1`)
         sw = normws(impl_fn_body(pre_rs, r"ConditionChain", "switch"))
         pp = normws(impl_fn_body(pre_rs, r"ConditionChain", "pop"))
         ia = normws(impl_fn_body(pre_rs, r"ConditionChain", "is_active"))
+        pu = normws(impl_fn_body(pre_rs, r"ConditionChain", "push"))
+        nw = normws(impl_fn_body(pre_rs, r"ConditionChain", "new"))
         pif = normws(fn_body(pre_rs, "preprocess_initial_file"))
+        pinc = normws(fn_body(pre_rs, "preprocess_included_file"))
         pc = normws(fn_body(pre_rs, "preprocess_command"))
+        base_writes = len(re.findall(r'(?:condition_chain|self)\s*\.\s*1\s*(?:[-+*/|&^]?=)(?!=)', pre_rs))
         cfacts = {
-            "switchEmptyIsElseNotMatched": (sw, r'None => Err\(PreprocessError::ElseNotMatched\),'),
-            "switchTable": (sw, r'ConditionState::Enabled => ConditionState::DisabledOuter, ConditionState::DisabledInner if active => ConditionState::Enabled, ConditionState::DisabledInner => ConditionState::DisabledInner, ConditionState::DisabledOuter => ConditionState::DisabledOuter,'),
-            "popEmptyIsEndIfNotMatched": (pp, r'^match self\.0\.pop\(\) \{ Some\(_\) => Ok\(\(\)\), None => Err\(PreprocessError::EndIfNotMatched\), \}$'),
-            "isActiveAllEnabled": (ia, r'^self\.0\.iter\(\)\.all\(\|gate\| \*gate == ConditionState::Enabled\)$'),
-            "unfinishedIsError": (pif, r'if !condition_chain\.0\.is_empty\(\) \{ return Err\(PreprocessError::ConditionChainNotFinished\); \}'),
+            "switchWorksOnFileSlice": (sw, r'^let blocks_of_file = &mut self\.0\[self\.1\.\.\]; match blocks_of_file\.last_mut\(\) \{ Some\(block\) => \{'),
+            "switchRejectsAfterElse": (sw, r'Some\(block\) => \{ if block\.seen_else \{ return Err\(if is_else \{ PreprocessError::ElseAfterElse\(location\) \} else \{ PreprocessError::ElifAfterElse\(location\) \}\); \} block\.seen_else = is_else; block\.state = match block\.state \{'),
+            "switchTable": (sw, r'block\.state = match block\.state \{ ConditionState::Enabled => ConditionState::DisabledOuter, ConditionState::DisabledInner if active => ConditionState::Enabled, ConditionState::DisabledInner => ConditionState::DisabledInner, ConditionState::DisabledOuter => ConditionState::DisabledOuter, \}; Ok\(\(\)\) \}'),
+            "switchEmptyIsElseNotMatched": (sw, r'None => Err\(PreprocessError::ElseNotMatched\), \}$'),
+            "popOnlyOwnBlocks": (pp, r'^if self\.0\.len\(\) > self\.1 \{ self\.0\.pop\(\); Ok\(\(\)\) \} else \{ Err\(PreprocessError::EndIfNotMatched\) \}$'),
+            "isActiveAllEnabled": (ia, r'^self\.0 ?\.iter\(\) ?\.all\(\|block\| block\.state == ConditionState::Enabled\)$'),
+            "pushStartsWithoutElse": (pu, r'^self\.0\.push\(ConditionBlock \{ state: gate, seen_else: false, \}\);$'),
+            "newChainIsEmptyWithBaseZero": (nw, r'^ConditionChain\(vec!\[\], 0\)$'),
+            "fileSavesAndSetsBase": (pinc, r'let outer_file_block_count = condition_chain\.1; condition_chain\.1 = condition_chain\.0\.len\(\);'),
+            "fileEndChecksAndRestoresBase": (pinc, r'if condition_chain\.0\.len\(\) != condition_chain\.1 \{ return Err\(PreprocessError::ConditionChainNotFinished\); \} condition_chain\.1 = outer_file_block_count; Ok\(\(\)\)$'),
+            "initialFileUsesTheFileBracket": (pif, r'let mut condition_chain = ConditionChain::new\(\);.*preprocess_included_file\( &mut tokens, file_loader, input_file, &mut macros, &mut condition_chain, \)\?; if !condition_chain\.0\.is_empty\(\) \{ return Err\(PreprocessError::ConditionChainNotFinished\); \} Ok\(tokens\)$'),
+            "skipComputedFirstAndJunkIgnoredWhenSkipped": (pc, r'^let command_location = command\[0\]\.get_location\(\); let skip = !condition_chain\.is_active\(\); let \(command_name, command\) = match command \{.*?_ if skip => return Ok\(\(\)\), _ => return Err\(PreprocessError::UnknownCommand\(command_location\)\), \};'),
+            "skippedIncludeNotLoaded": (pc, r'"include" => \{ if skip \{ return Ok\(\(\)\); \}'),
+            "includeRunsTheFileBracket": (pc, r'Ok\(file\) => \{ file_loader\.include_depth \+= 1; let result = preprocess_included_file\( buffer, file_loader, file, macros, condition_chain, \); file_loader\.include_depth -= 1; result \}'),
             "skippedIfPushesDisabledInner": (pc, r'"if" => \{ if skip \{ condition_chain\.push\(ConditionState::DisabledInner\); return Ok\(\(\)\); \}'),
             "skippedIfdefPushesDisabledInner": (pc, r'"ifdef" \| "ifndef" => \{ if skip \{ condition_chain\.push\(ConditionState::DisabledInner\); return Ok\(\(\)\); \}'),
             "activeIfPushesByCondition": (pc, r'condition_chain\.push\(if active \{ ConditionState::Enabled \} else \{ ConditionState::DisabledInner \}\); Ok\(\(\)\) \} "elif"'),
-            "elifSwitches": (pc, r'"elif" => \{ .*? condition_chain\.switch\(active\)\?; Ok\(\(\)\) \}'),
-            "elseSwitchesTrue": (pc, r'condition_chain\.switch\(true\)\?;'),
+            "elifSwitches": (pc, r'"elif" => \{ .*? condition_chain\.switch\(active, false, command_location\)\?; Ok\(\(\)\) \}'),
+            "elseSwitchesTrue": (pc, r'condition_chain\.switch\(true, true, command_location\)\?;'),
             "endifPops": (pc, r'condition_chain\.pop\(\)\?;'),
         }
         out.append("/-- syntactic facts about ConditionChain and its users (preprocess/src/preprocess.rs) -/\n")
         out.append("structure CondShape where\n" + "".join(f"  {k} : Bool\n" for k in cfacts) + "  deriving DecidableEq, Repr\n\n")
         out.append("def condShape : CondShape := { " +
                    ", ".join(f"{k} := {'true' if re.search(rx, s) else 'false'}" for k, (s, rx) in cfacts.items()) + " }\n\n")
+        out.append("/-- number of assignments to the second field of the chain (`condition_chain.1 = ..` / `self.1 = ..`) in\n"
+                   "    preprocess.rs: the save-and-set and the restore of `preprocess_included_file` -/\n"
+                   f"def chainBaseWrites : Nat := {base_writes}\n\n")
 
         # ---- macro expansion: the recursive call on a macro body is bracketed by disabling that macro,
         #      arguments are expanded with the caller's disabled set, disabled macros are not found
@@ -285,6 +302,10 @@ def register(gen, T):
         pc = normws(fn_body(pre_rs, "preprocess_command"))
         pif = normws(fn_body(pre_rs, "preprocess_included_file"))
         mp = normws(fn_body(pre_rs, "parse"))
+        sma = normws(fn_body(pre_rs, "split_macro_args"))
+        twnl = normws(fn_body(pre_rs, "trim_whitespace_and_endlines_start"))
+        tws = normws(fn_body(pre_rs, "trim_whitespace_start"))
+        pinit = normws(fn_body(pre_rs, "preprocess_initial_file"))
 
         def flag_of(text):
             t = text.strip()
@@ -327,6 +348,15 @@ def register(gen, T):
             "textScansWithoutDefined": (pif, r'apply_macros\(input_tokens, macros, false, file_loader\.source_manager\)\?;'),
             # Concat / MacroArg tokens are made by Macro::parse only (from `##` / parameter names in a macro body)
             "concatMadeInMacroParse": (mp, r'else if let Token::HashHash = &t\.0 \{ return PreprocessToken\(Token::Concat, t\.1\.clone\(\)\); \}'),
+            # f08088c: an invocation may continue on the next line: the `(` is looked for after blanks and line ends, in
+            # split_macro_args and in the function check of find_single_macro; `Z(<line end>)` is an empty argument list
+            "splitArgsSkipsLineEnds": (sma, r'^let remaining = trim_whitespace_and_endlines_start\(remaining\); let mut remaining = if let \[PreprocessToken\(Token::LeftParen, _\), rest @ \.\.\] = remaining \{ rest \} else \{ return Err\(PreprocessError::MacroRequiresArguments\('),
+            "functionCheckSkipsLineEnds": (fsm, r'if macro_def\.is_function \{ let trimmed = trim_whitespace_and_endlines_start\(&tokens\[i \+ 1\.\.\]\); activate_pos = tokens\.len\(\) - trimmed\.len\(\); let \[PreprocessToken\(Token::LeftParen, _\), \.\.\] = trimmed else \{ continue; \}; \}'),
+            "emptyArgumentListMayHoldLineEnd": (asm, r'if macro_def\.num_params == 0 \{ if !\(args\.len\(\) == 1 && trim_whitespace_and_endlines_start\(args\[0\]\)\.is_empty\(\)\) \{ return Err\(PreprocessError::MacroExpectsDifferentNumberOfArguments\); \} \} else if args\.len\(\) as u64 != macro_def\.num_params \{'),
+            "lineEndTrimDropsAllWhitespace": (twnl, r'^while let Some\(\(PreprocessToken\(tok, _\), rest\)\) = tokens\.split_first\(\) \{ if tok\.is_whitespace\(\) \{ tokens = rest; \} else \{ break; \} \} tokens$'),
+            "blankTrimKeepsLineEnds": (tws, r'^while let Some\(\(PreprocessToken\(tok, _\), rest\)\) = tokens\.split_first\(\) \{ if tok\.is_whitespace\(\) && \*tok != Token::Endline \{ tokens = rest; \} else \{ break; \} \} tokens$'),
+            # 3c81ed5: no line end can enter a macro body through an API define
+            "apiDefineRejectsLineEnd": (pinit, r'if tokens\.iter\(\)\.any\(\|t\| t\.0 == Token::Endline\) \{ return Err\(PreprocessError::InvalidDefine\(SourceLocation::UNKNOWN\)\); \} let macro_def = Macro::parse\(&tokens\)\?;'),
         }
         out.append("/-- syntactic facts about the `defined` operation and the scan positions (regexes over the normalised source) -/\n")
         out.append("structure DefinedShape where\n" + "".join(f"  {k} : Bool\n" for k in dfacts) + "  deriving DecidableEq, Repr\n\n")
